@@ -14,7 +14,7 @@ ID = "C10"
 TOLERANCES = {"faces": "bitwise (face form) / 4 ulp of L ((N,L) form)", "centres/sizes": "4 ulp of the coordinate scale",
               "cell volume": 1e-12, "labels": "object identity"}
 RULE = ("Generated: 9 classes x constructor form {face arrays, (N..,L..)} x N in 1..6 (occasionally 40) per axis x strictly "
-        "increasing faces with width ratios up to 1e4, partial / full angular ranges, radial origin 0 or offset, polar-angle "
+        "increasing faces with width ratios up to 1e4 (and almost-equispaced ones, relative differences 1e-6..1e-9), partial / full angular ranges, radial origin 0 or offset, polar-angle "
         "faces touching 0 and pi.  Oracle = closed-form geometry per cell.  Non-trivial = face form with non-uniform faces and "
         ">=2 cells on every axis (a wrong distribution over cells is invisible otherwise).  Distinct = SHA-1 of the case.")
 ASSUMPTIONS = ["K1: SphericalGrid3D.cellvolume is compared with the geometric volume only through the factor the known "
@@ -41,8 +41,18 @@ def _case(draw):
     faces = []
     for k in kinds:
         n = draw(st.one_of(st.integers(1, 6), st.integers(1, 6), st.just(40))) if len(kinds) < 3 else draw(st.integers(1, 5))
-        style = draw(st.sampled_from(['random', 'wild', 'uniform', 'ratio']))
-        if style == 'wild':
+        style = draw(st.sampled_from(['random', 'wild', 'uniform', 'ratio', 'nearly']))
+        if style == 'nearly':
+            # almost equispaced: widths differ by a relative 1e-6 .. 1e-9 (a slightly graded mesh, or faces from accumulated
+            # arithmetic) - the sizes must still be the face differences, not an idealised common width
+            eps = draw(st.sampled_from([1e-6, 1e-7, 1e-9]))
+            w = 1.0 + eps * np.array([draw(st.integers(-8, 8)) for _ in range(n)]) / 8.0
+            cs = np.concatenate([[0.0], np.cumsum(w)]) / w.sum()
+            cs[-1] = 1.0
+            base = draw(gen.axis_faces(k, n, 'uniform', theta_touch=True))
+            f = base[0] + (base[-1] - base[0]) * cs
+            faces.append([float(x) for x in f])
+        elif style == 'wild':
             w = 10.0 ** np.array([draw(st.floats(-2, 2)) for _ in range(n)])
             cs = np.concatenate([[0.0], np.cumsum(w)]) / w.sum()
             cs[-1] = 1.0
